@@ -48,6 +48,12 @@ pub trait GcManaged {
     fn verif_dead_range(&self) -> Option<(usize, usize)> {
         None
     }
+
+    /// Whether somebody currently holds a borrow guard on this object (only `RefCell`s can tell).
+    #[cfg(feature = "verif_hooks")]
+    fn verif_is_borrowed(&self) -> bool {
+        false
+    }
 }
 
 type GcBoxPtr<T> = NonNull<GcBox<T>>;
@@ -522,6 +528,11 @@ impl<T: GcManaged> GcManaged for RefCell<T> {
     fn verif_dead_range(&self) -> Option<(usize, usize)> {
         self.try_borrow().ok().and_then(|b| b.verif_dead_range())
     }
+
+    #[cfg(feature = "verif_hooks")]
+    fn verif_is_borrowed(&self) -> bool {
+        self.try_borrow_mut().is_err()
+    }
 }
 
 impl<T: GcManaged> GcManaged for Vec<T> {
@@ -613,6 +624,10 @@ pub mod verif {
         pub type_name: &'static str,
         pub allocated_at: usize,
         pub used_at: usize,
+        /// "use": the object was dereferenced after it had been reclaimed; "stack": an open captured
+        /// variable pointed into a reclaimed fiber's stack; "borrowed": the object was reclaimed
+        /// while a borrow guard on it was still alive (the guard's drop writes into freed memory).
+        pub what: &'static str,
     }
 
     pub(super) struct BoxInfo {
@@ -649,6 +664,7 @@ pub mod verif {
                             type_name: self.type_name,
                             allocated_at: self.alloc_index,
                             used_at,
+                            what: "use",
                         });
                     }
                 }
@@ -756,6 +772,7 @@ pub mod verif {
                             type_name: "open upvalue -> value stack of a reclaimed fiber",
                             allocated_at: 0,
                             used_at,
+                            what: "stack",
                         });
                     }
                 }
@@ -832,7 +849,29 @@ pub mod verif {
             .filter(|o| o.colour.get() != Colour::Black)
             .count();
         LAST_FREED.with(|l| l.set(whites));
-        if whites == 0 || !QUARANTINE_ON.with(|q| q.get()) {
+        if whites == 0 {
+            return;
+        }
+        // Nothing that is about to be reclaimed may still be borrowed by the interpreter.
+        for obj in objects.iter() {
+            if obj.colour.get() != Colour::Black && obj.data.verif_is_borrowed() {
+                let used_at = ALLOCS.with(|a| a.get());
+                UAR.with(|u| {
+                    if let Ok(mut u) = u.try_borrow_mut() {
+                        if u.len() < 64 {
+                            u.push(UseAfterReclaim {
+                                type_name: obj.verif.type_name,
+                                allocated_at: obj.verif.alloc_index,
+                                used_at,
+                                what: "borrowed",
+                            });
+                        }
+                    }
+                });
+                UAR_COUNT.with(|c| c.set(c.get() + 1));
+            }
+        }
+        if !QUARANTINE_ON.with(|q| q.get()) {
             return;
         }
         let mut kept = Vec::with_capacity(objects.len());
